@@ -212,6 +212,12 @@ func (w *walker) stmts(scope string, ss []*sysl.Statement) {
 
 func walkModule(m *sysl.Module) map[string]*found {
 	w := &walker{got: map[string]*found{}}
+	for i, im := range m.GetImports() {
+		// an import statement has the single field only
+		if sc := im.GetSourceContext(); sc != nil {
+			w.put(fmt.Sprintf("I|%d", i), "import", []*sysl.SourceContext{sc}, sc)
+		}
+	}
 	for an, a := range m.GetApps() {
 		ap := "A|" + an
 		w.put(ap, "app", a.GetSourceContexts(), a.GetSourceContext()) //nolint:staticcheck
@@ -229,11 +235,22 @@ func walkModule(m *sysl.Module) map[string]*found {
 				w.put(fp, "field", f.GetSourceContexts(), f.GetSourceContext()) //nolint:staticcheck
 				w.attrs(fp, f.GetAttrs())
 			}
+			for i, u := range t.GetOneOf().GetType() {
+				w.put(fmt.Sprintf("U|%s|%s|%d", an, tn, i), "union-member", u.GetSourceContexts(), u.GetSourceContext()) //nolint:staticcheck
+			}
 		}
 		for en, e := range a.GetEndpoints() {
 			ep := "E|" + an + "|" + en
 			w.put(ep, "endpoint", e.GetSourceContexts(), e.GetSourceContext()) //nolint:staticcheck
 			w.attrs(ep, e.GetAttrs())
+			for i, pa := range e.GetParam() {
+				pp := fmt.Sprintf("P|%s|%d", ep, i)
+				w.put(pp, "parameter", pa.GetType().GetSourceContexts(), pa.GetType().GetSourceContext()) //nolint:staticcheck
+				w.attrs(pp, pa.GetType().GetAttrs())
+			}
+			for i, q := range e.GetRestParams().GetQueryParam() {
+				w.put(fmt.Sprintf("Q|%s|%d", ep, i), "parameter", q.GetType().GetSourceContexts(), q.GetType().GetSourceContext()) //nolint:staticcheck
+			}
 			w.stmts("S|"+an+"|"+en, e.GetStmt())
 		}
 	}
@@ -251,7 +268,7 @@ type Input struct {
 func lineRunes(text string) []int {
 	var out []int
 	for _, l := range strings.Split(text, "\n") {
-		out = append(out, utf8.RuneCountInString(l))
+		out = append(out, utf8.RuneCountInString(strings.TrimSuffix(l, "\r")))
 	}
 	return out
 }
@@ -278,6 +295,9 @@ func judge(c *common.Ctx, cs Input, cm compiled) (got map[string]*found, cerr st
 	exp := map[string][]*Decl{}
 	var order []string
 	for _, d := range cs.Decls {
+		if d.Replaced {
+			continue // written inside a declaration that a later one replaced: no element of the module
+		}
 		for _, p := range d.Paths {
 			if _, ok := exp[p]; !ok {
 				order = append(order, p)
@@ -360,6 +380,10 @@ func judge(c *common.Ctx, cs Input, cm compiled) (got map[string]*found, cerr st
 				}
 			}
 			switch {
+			case ds[0].Kind == kHolder && len(f.cs) == 0:
+				key = "count:placeholder-endpoint-no-location"
+			case (ds[0].Kind == kEnum || ds[0].Kind == kAlias || ds[0].Kind == kUnion) && len(ds) > 1 && len(f.cs) == 1 && at(ds[len(ds)-1], f.cs[0]):
+				key = "count:type-replaced-keeps-last:" + map[int]string{kEnum: "enum", kAlias: "alias", kUnion: "union"}[ds[0].Kind]
 			case ds[0].Kind == kEvent && len(f.cs) == 1 && at(ds[0], f.cs[0]):
 				key = "count:event-redeclared-keeps-first"
 			case ds[0].Kind == kNvp && len(f.cs) == 1 && at(ds[len(ds)-1], f.cs[0]):
